@@ -432,7 +432,7 @@ pub fn run(ctx: &mut Ctx, c13: bool) {
         let mut v = vec![(vec![many(70, true), many(70, false)], false), (vec![many(129, true)], false), (vec![rows(256, true), rows(3, false)], false)];
         // rows with two dozen attributes; a later row brings a new one, another lacks one
         {
-            let attrs: Vec<String> = (0..24).map(|i| format!("a{}", i)).collect();
+            let attrs: Vec<String> = (0..26).map(|i| format!("a{}", i)).collect();
             let arefs: Vec<&str> = attrs.iter().map(|x| x.as_str()).collect();
             let mut more = arefs.clone();
             more.push("note");
